@@ -152,7 +152,7 @@ func (dht *FullRT) Close() error
   ghostvar $vs bool = false
   modifies *
   ensures [waits-for-own-goroutines] tagged("wgwait:dht.wg")
-  ensures [internal-closes-existing-stores] imp(dht.ProviderManager != nil, $pm) && imp(dht.valueStore != nil, $vs)
+  ensures [internal-closes-existing-stores] imp(old(dht.ProviderManager) != nil, $pm) && imp(old(dht.valueStore) != nil, $vs)
   ghost at call(cancel): $cancelled = true
   ghost at before call(Wait): assert($cancelled)
   ghost at before call(Close)#0: assert(tagged("wgwait:dht.wg") && $recv == dht.ProviderManager); $pm = true
